@@ -195,7 +195,7 @@ fn main() {
         let n_mid = 1 + (i % 38) as usize;
         mono_case(&mut ctx, n_mid, None, i % 2 == 0, i % 5 != 0);
     }
-    let n = ctx.n(600, 30000);
+    let n = ctx.n(2400, 30000);
     for i in 0..n {
         tiling_case(&mut ctx, i % 3 == 0);
     }
